@@ -8,7 +8,7 @@ TFC fingerprint, TFC) / PendingBackwardProjection / QueryInput / QueryResult, th
 the dirty-edge set, the external-input index (= the nodes of kind `external`), and the timestamp
 (`database/sync.rs`).  In the model that is `PSt` = `epoch`, `nodes`, `back`, `dirty` of `St`.  Not
 stored: the computing table, the backward-projection locks, the per-epoch `dirtied_queries` set, the
-statistics; `world` is the environment (harness-controlled cells), not engine state.
+statistics (and the model's bookkeeping of running firewall repairs); `world` is the environment (harness-controlled cells), not engine state.
 
 Every publication of the code builds exactly one write batch (`new_write_transaction` …
 `submit_write_buffer`): `set_computed` (the batch is created after the executor has returned, and
@@ -55,24 +55,44 @@ structure PS where
   st : St := {}
   trace : List PSt := []
 
-abbrev MP := StateT PS (Except Err)
+abbrev MP := ExceptT Err (StateM PS)
 
-def liftE {α} (a : M α) : MP α := fun ps =>
-  match a ps.st with
-  | .ok (r, s') => .ok (r, { ps with st := s' })
-  | .error e => .error e
+/-- the engine model's helper functions (`Model/Engine.lean`) act on the engine state; the state is
+    kept when an error is raised, as in `M` -/
+def liftE {α} (a : M α) : MP α := ExceptT.mk fun ps =>
+  let r := runM' a ps.st
+  (r.1, { ps with st := r.2 })
 
 instance : MonadLift M MP := ⟨liftE⟩
 
-def getS : MP St := fun ps => .ok (ps.st, ps)
-def setS (s : St) : MP Unit := fun ps => .ok ((), { ps with st := s })
-def modifyS (f : St → St) : MP Unit := fun ps => .ok ((), { ps with st := f ps.st })
-def throwP {α} (e : Err) : MP α := fun _ => .error e
+def getS : MP St := do return (← getThe PS).st
+def setS (s : St) : MP Unit := modifyThe PS fun ps => { ps with st := s }
+def modifyS (f : St → St) : MP Unit := modifyThe PS fun ps => { ps with st := f ps.st }
+def throwP {α} (e : Err) : MP α := throw e
 
 /-- `submit_write_buffer`: the batch of the current publication reaches the pipeline -/
-def publish : MP Unit := fun ps => .ok ((), { ps with trace := ps.trace ++ [persistent ps.st] })
+def publish : MP Unit := modifyThe PS fun ps => { ps with trace := ps.trace ++ [persistent ps.st] }
+
+/-- `onPanic` of the engine model, on `MP` -/
+def onPanicP {α} (x : MP α) (cleanup : MP Unit) : MP α :=
+  tryCatch x fun e =>
+    match e with
+    | .panic _ => do cleanup; throw e
+    | _ => throw e
+
+def runP' {α} (x : MP α) (ps : PS) : Except Err α × PS := (ExceptT.run x).run ps
+
+def runP {α} (x : MP α) (ps : PS) : Except Err (α × PS) :=
+  match runP' x ps with
+  | (.ok a, ps') => .ok (a, ps')
+  | (.error e, _) => .error e
 
 -- ------------------------------------------------------------------ the engine proper (with `publish`)
+-- The text between the markers is `Model/Engine.lean`'s mutual block, `userQuery`, `session` and `round`,
+-- renamed (`…P`), retyped (`M` → `MP`) and with a `publish` after each of the four places where the code
+-- submits a write batch.  It is regenerated from `Model/Engine.lean` before every check run.
+
+-- BEGIN GENERATED (tools/props/c07.py gen_persist_model) — do not edit between the markers
 
 mutual
 
@@ -81,7 +101,8 @@ def queryForP (t : Toggles) (p : Program) : Nat → Key → Caller → MP QRes
   | 0, _, _ => throwP .outOfFuel
   | fuel + 1, k, caller => do
     registerCallee p caller k
-    queryLoopP t p fuel k caller
+    -- a panic unwinding through `query_for` drops the un-defused `UndoRegisterCallee`
+    onPanicP (queryLoopP t p fuel k caller) (liftE (undoRegister caller k))
 
 def queryLoopP (t : Toggles) (p : Program) : Nat → Key → Caller → MP QRes
   | 0, _, _ => throwP .outOfFuel
@@ -129,7 +150,16 @@ def queryLoopP (t : Toggles) (p : Program) : Nat → Key → Caller → MP QRes
         | .query _ _ ped => !ped
         | _ => false
       if sp == .repair && (caller == .user || caller == .repairFirewall || (t.f1 && nonPedanticQuery)) then
+        -- The firewalls are repaired before `k`'s computing lock is taken and `k` stays unverified
+        -- meanwhile.  If `k` is (transitively) in its own firewall set — a firewall on a dependency
+        -- cycle — the nested request for `k` finds it unverified and not computing and starts the same
+        -- repair again, each time in a freshly spawned task: unbounded recursion, the request never
+        -- completes.
+        if (← getS).tfcStack.contains k then
+          throwP (.deadlock s!"repair_transitive_firewall_callees of {k} requests itself: unbounded recursion")
+        modifyS fun s => { s with tfcStack := k :: s.tfcStack }
         repairTfcP t p fuel k
+        modifyS fun s => { s with tfcStack := s.tfcStack.erase k }
       -- get_write_guard
       match sp with
       | .bp =>
@@ -138,7 +168,8 @@ def queryLoopP (t : Toggles) (p : Program) : Nat → Key → Caller → MP QRes
         else
           if (← getS).bpLock.contains k then throwP (.deadlock s!"backward projection lock of {k} is held")
           modifyS fun s => { s with bpLock := k :: s.bpLock }
-          invokeBackwardProjectionsP t p fuel k
+          onPanicP (invokeBackwardProjectionsP t p fuel k)
+            (modifyS fun s => { s with bpLock := s.bpLock.filter (· != k) })
           queryLoopP t p fuel k caller
       | _ =>
         -- computing_lock_guard: double check
@@ -149,14 +180,14 @@ def queryLoopP (t : Toggles) (p : Program) : Nat → Key → Caller → MP QRes
           else
             if (findComp k (← getS).computing).isSome then throwP (.deadlock s!"computing lock of {k} is held")
             modifyS fun s => { s with computing := { key := k, kind := n.kind, callees := [], order := [], unorderedMode := false, inScc := false, tfc := [] } :: s.computing }
-            repairQueryP t p fuel k caller
+            onPanicP (repairQueryP t p fuel k caller) (liftE (popComputing k))
             queryLoopP t p fuel k caller
         | none =>
           let d ← nodeDef p k
           if d.kind == .input then throwP (.panic s!"Failed to find executor for query (input {k} was never set)")
           if (findComp k (← getS).computing).isSome then throwP (.deadlock s!"computing lock of {k} is held")
           modifyS fun s => { s with computing := { key := k, kind := d.kind, callees := [], order := [], unorderedMode := false, inScc := false, tfc := [] } :: s.computing }
-          executeQueryP t p fuel k false caller
+          onPanicP (executeQueryP t p fuel k false caller) (liftE (popComputing k))
           queryLoopP t p fuel k caller
 
 /-- `repair_transitive_firewall_callees` -/
@@ -183,7 +214,7 @@ def invokeBackwardProjectionsP (t : Toggles) (p : Program) : Nat → Key → MP 
       let _ ← queryForP t p fuel pj .bpp
     let n ← nodeInfoUnchecked k
     setNode k { n with pendingBP := none }
-    publish          -- `done_backward_projection`: submit_write_buffer(tx)
+    publish   -- `done_backward_projection`: submit_write_buffer(tx)
     let s ← getS
     if !s.bpLock.contains k then throwP (.panic "backward projection lock entry missing")
     setS { s with bpLock := s.bpLock.filter (· != k) }
@@ -226,14 +257,33 @@ def repairQueryP (t : Toggles) (p : Program) : Nat → Key → Caller → MP Uni
       let mut cleaned : List Key := []
       for dep in n.fwd do
         if recompute then break
-        for callee in dep.keys do
-          if recompute then break
+        match dep with
+        | .single callee =>
           match (← checkCalleeP t p fuel k n.kind callee n.obs pedantic) with
           | .recompute => recompute := true
           | .noNeed => pure ()
           | .cleaned rt add =>
             if add then cleaned := cleaned ++ [callee]
             if rt then needTfc := true
+        | .unordered ks =>
+          -- one spawned task per chunk (chunks of one callee for small groups), run one after the
+          -- other; a `Recompute` decision sets the `cancelled` flag (later chunks return at once); a
+          -- task that panics is a `JoinError`, which the parent counts as "recompute" (the panic is
+          -- swallowed) without cancelling the chunks that have not run yet
+          let mut cancelled := false
+          for callee in ks do
+            if cancelled then break
+            let r : Option Check ← tryCatch (some <$> checkCalleeP t p fuel k n.kind callee n.obs pedantic) fun e =>
+              match e with
+              | .panic _ => pure none
+              | _ => throw e
+            match r with
+            | none => recompute := true
+            | some .recompute => recompute := true; cancelled := true
+            | some .noNeed => pure ()
+            | some (.cleaned rt add) =>
+              if add then cleaned := cleaned ++ [callee]
+              if rt then needTfc := true
       if recompute then
         modifyComp k fun c => { c with callees := [], order := [], unorderedMode := false }
         executeQueryP t p fuel k true caller
@@ -251,37 +301,33 @@ def repairQueryP (t : Toggles) (p : Program) : Nat → Key → Caller → MP Uni
               newTfc := unionSorted xn.tfc newTfc
         modifyS fun s => { s with dirty := cleaned.foldl (fun d c => removePair (k, c) d) s.dirty }
         setNode k { n with tfc := newTfc, lastVerified := (← getS).epoch }
-        publish        -- `clean_query`: submit_write_buffer(tx)
+        publish   -- `clean_query`: submit_write_buffer(tx)
         popComputing k
 
 /-- runs the executor of `owner` -/
-def runProgP (t : Toggles) (p : Program) : Nat → Key → Bool → Prog → MP Ran
+def runProgP (t : Toggles) (p : Program) : Nat → Key → Bool → Prog → MP Val
   | 0, _, _, _ => throwP .outOfFuel
   | fuel + 1, owner, pedantic, prog => do
     match prog with
-    | .ret v => pure (.done v)
+    | .ret v => pure v
     | .world k cont =>
       let v := (lookup k (← getS).world).getD 0
       runProgP t p fuel owner pedantic (cont v)
     | .ask k cont =>
       match (← queryForP t p fuel k (.query owner true pedantic)) with
-      | .cyclic => pure .cyclicAbort
+      | .cyclic => throwP (.panic cyclicPayload)
       | .value none => throwP (.panic "Query did not return a value")
       | .value (some v) => runProgP t p fuel owner pedantic (cont v)
     | .askAll ks cont =>
       modifyComp owner fun c => { c with unorderedMode := true, order := c.order ++ [.unordered []] }
       let mut vs : List Val := []
-      let mut aborted := false
       for k in ks do
-        if aborted then break
         match (← queryForP t p fuel k (.query owner true pedantic)) with
-        | .cyclic => aborted := true
+        | .cyclic => throwP (.panic cyclicPayload)
         | .value none => throwP (.panic "Query did not return a value")
         | .value (some v) => vs := vs ++ [v]
-      if aborted then pure .cyclicAbort
-      else
-        modifyComp owner fun c => { c with unorderedMode := false }
-        runProgP t p fuel owner pedantic (cont vs)
+      modifyComp owner fun c => { c with unorderedMode := false }
+      runProgP t p fuel owner pedantic (cont vs)
 
 /-- `execute_query` + `computing_lock_to_computed` + `set_computed` -/
 def executeQueryP (t : Toggles) (p : Program) : Nat → Key → Bool → Caller → MP Unit
@@ -292,15 +338,19 @@ def executeQueryP (t : Toggles) (p : Program) : Nat → Key → Bool → Caller 
       | .query _ _ ped => ped
       | .bpp => true
       | _ => false
-    let ran ← runProgP t p fuel k pedantic d.prog
+    -- `invoke_executor`: `catch_unwind` around the executor (any panic, not only the cyclic payload)
+    let ran : Ran ← tryCatch (Ran.done <$> runProgP t p fuel k pedantic d.prog) fun e =>
+      match e with
+      | .panic m => pure (.panicked m)
+      | _ => throw e
+    modifyS fun s => { s with log := s.log ++ [k] }
     let comp ← match findComp k (← getS).computing with
       | some c => pure c
       | none => throwP (.panic "execute_query: computing state missing")
     let value ← match comp.inScc, ran with
-      | true, _ => pure d.dflt
+      | true, _ => pure d.dflt          -- whatever the executor did, also a genuine panic, is discarded
       | false, .done v => pure v
-      | false, .cyclicAbort => throwP (.panic "CyclicPanicPayload escaped a query that is not in an SCC")
-    modifyS fun s => { s with log := s.log ++ [k] }
+      | false, .panicked m => throwP (.panic m)   -- `panic.resume_unwind()`
     let now := (← getS).epoch
     let old ← getNode k
     let needBP ← match old with
@@ -322,13 +372,12 @@ def executeQueryP (t : Toggles) (p : Program) : Nat → Key → Bool → Caller 
       obs := observations, tfc := comp.tfc,
       pendingBP := if needBP then some now else (old.bind (·.pendingBP)) }
     addBackEdges k comp.order
-    publish          -- `set_computed`: submit_write_buffer(tx)
+    publish   -- `set_computed`: submit_write_buffer(tx)
     popComputing k
 
 end
 
-
-/-- `TrackedEngine::query` from the user, one tracked engine per round with its local cache. -/
+/-- `TrackedEngine::query` from the user, one tracked engine per roundP with its local cache. -/
 def userQueryP (t : Toggles) (p : Program) (k : Key) : MP Val := do
   let s ← getS
   match (← queryForP t p (fuelFor p s) k .user) with
@@ -336,11 +385,9 @@ def userQueryP (t : Toggles) (p : Program) (k : Key) : MP Val := do
   | .value none => throwP (.panic "Query did not return a value")
   | .cyclic => throwP (.panic "CyclicError at the root")
 
-
-
-/-- One input session: `input_session()` (epoch bump), the writes, `commit()`. -/
+/-- One input sessionP: `input_session()` (epoch bump), the writes, `commit()`. -/
 def sessionP (p : Program) (ws : List Write) : MP (List SetRes) := do
-  -- world writes are applied by the harness before the session starts
+  -- world writes are applied by the harness before the sessionP starts
   for w in ws do
     match w with
     | .world k v => modifyS fun s => { s with world := upsert k v s.world }
@@ -383,10 +430,10 @@ def sessionP (p : Program) (ws : List Write) : MP (List SetRes) := do
   -- commit_internal
   modifyS fun s => { s with dirtied := [], dirtiedEdges := 0 }
   dirtyPropagate (4 * (← getS).back.length + p.length + 8) batch
-  publish            -- `commit_internal`: submit_write_buffer(transaction)
+  publish   -- `commit_internal`: submit_write_buffer(transaction)
   pure out
 
-/-- One round: one tracked engine, keys queried in order through its local cache. -/
+/-- One roundP: one tracked engine, keys queried in order through its local cache. -/
 def roundP (t : Toggles) (p : Program) (ks : List Key) : MP (List Val) := do
   let mut cache : List (Key × Val) := []
   let mut out : List Val := []
@@ -398,6 +445,8 @@ def roundP (t : Toggles) (p : Program) (ks : List Key) : MP (List Val) := do
       cache := cache ++ [(k, v)]
       out := out ++ [v]
   pure out
+
+-- END GENERATED
 
 -- ------------------------------------------------------------------ histories with restarts and crashes
 
@@ -423,6 +472,6 @@ def restartP (ps : PS) : PS := { ps with st := restart ps.st }
 def syncedB (ps : PS) : Bool := ps.trace.getLast? == some (persistent ps.st)
 
 /-- nothing is in flight -/
-def quiescentB (s : St) : Bool := s.computing.isEmpty && s.bpLock.isEmpty
+def quiescentB (s : St) : Bool := s.computing.isEmpty && s.bpLock.isEmpty && s.tfcStack.isEmpty
 
 end Qbice.Persist
